@@ -59,6 +59,47 @@ class Doc:
                 'vis': txtids.setdefault(('v', vis), len(txtids) + 1), 'txt': txtids.setdefault(('t', text), len(txtids) + 1)}
 
 
+def observe_copy(d: Doc, txtids: dict) -> dict:
+    """A `copy` event: copy.deepcopy of the document in its current attribution state.  own / claimed describe
+    the COPY (comments matched by ordinal among the block comments of the store, owners by parallel tree walk);
+    vis / txt describe the ORIGINAL after the copy was taken (copying is not an edit)."""
+    import copy as _copy
+    ev: dict = {'op': 'copy', 'who': -1, 'root': False, 'second': False, 'default': d.default, 'snap': False, 'exc': ''}
+    base_obs = d.observe(txtids)
+    cp = _copy.deepcopy(d.file)
+    on = list(tree.walk(d.file))
+    cn = list(tree.walk(cp))
+    oc = [t for t in d.file.token_store if isinstance(t, models.BlockComment)]
+    cc = [t for t in cp.token_store if isinstance(t, models.BlockComment)]
+    if len(on) != len(cn) or any(type(a[1]) is not type(b[1]) for a, b in zip(on, cn)) or len(oc) != len(cc) \
+            or any(id(c) not in d.cidx for c in oc):
+        return dict(ev, exc='copy-structure', **base_obs)
+    ids = {id(b[1]): d.ids.get(id(a[1]), -1) for a, b in zip(on, cn)}
+    cidx = {id(c2): d.cidx[id(c1)] for c1, c2 in zip(oc, cc)}
+    own: list[list] = [[] for _ in d.comments]
+    claimed = [False] * len(d.comments)
+    for c2 in cc:
+        claimed[cidx[id(c2)]] = bool(c2.claimed)
+    for _, m in cn:
+        if isinstance(m, SurroundingCommentsMixin):
+            for kind, c in (('leading', m._leading_comment), ('trailing', m._trailing_comment)):
+                if c is not None and id(c) in cidx:
+                    own[cidx[id(c)]].append([kind, ids.get(id(m), -1)])
+        if isinstance(m, Repeated):
+            for it in m.items:
+                if isinstance(it, models.BlockComment) and id(it) in cidx:
+                    own[cidx[id(it)]].append(['inner', ids.get(id(m), -1)])
+    return dict(ev, own=own, claimed=claimed, vis=base_obs['vis'], txt=base_obs['txt'])
+
+
+def _copy_event(d: Doc, txtids: dict) -> Optional[dict]:
+    try:
+        with common.guard():
+            return observe_copy(d, txtids)
+    except Exception:  # noqa: BLE001
+        return None          # deep copies are C11's business; here only their attribution is judged
+
+
 def calls_for(d: Doc) -> list[tuple[str, int]]:
     out = []
     for k, m in enumerate(d.mixins):
@@ -132,6 +173,11 @@ def record(text: str, default: bool, plan: list[tuple[str, int]], txtids: dict, 
     events = [dict({'op': 'init', 'who': -1, 'root': False, 'second': False, 'default': default, 'snap': False, 'exc': ''},
                    **d.observe(txtids))]
     prev_auto = None
+    if not default:
+        cev = _copy_event(d, txtids)
+        if cev is not None:
+            events.append(cev)
+            events.append(dict(events[0], op='resume'))
     for call in plan:
         op, k = call
         if (op.endswith('leading') or op.endswith('trailing')) and k >= len(d.mixins):
@@ -142,16 +188,23 @@ def record(text: str, default: bool, plan: list[tuple[str, int]], txtids: dict, 
             continue
         if op == 'auto' and not (isinstance(d.nodes[k][1], base.RawTreeModel) and not isinstance(d.nodes[k][1], Repeated)):
             continue
+        before = events[-1]
         ev = perform(d, call, txtids, prev_auto)
         prev_auto = k if op == 'auto' else None
         events.append(ev)
+        if ev['own'] != before['own'] and not ev['exc']:
+            # a deep copy taken in this attribution state carries the same attribution
+            cev = _copy_event(d, txtids)
+            if cev is not None and cev['own'] is not None:
+                events.append(cev)
+                events.append(dict(ev, op='resume', exc=''))     # back to the original's own observation
         if restore and op in ('unclaim_leading', 'unclaim_trailing', 'unclaim_inner') and not ev['exc'] \
-                and ev['own'] != events[-2]['own']:
+                and ev['own'] != before['own']:
             # unclaim followed by the same claim restores the attribution
             ev['snap'] = True
             if op == 'unclaim_inner':
                 # claim exactly the comments the unclaim released
-                released = [d.comments[c] for c in range(len(d.comments)) if ev['own'][c] != events[-2]['own'][c]]
+                released = [d.comments[c] for c in range(len(d.comments)) if ev['own'][c] != before['own'][c]]
                 w, rep = d.wrappers[k]
                 ev2 = {'op': 'claim_inner', 'who': d.ids.get(id(rep), -1), 'root': False, 'second': False,
                        'default': d.default, 'snap': False, 'exc': ''}
